@@ -667,9 +667,10 @@ func Script(asserts []*Term, getValues []*Term, logicHint string) string {
 	}
 	var out strings.Builder
 	out.WriteString("(set-option :produce-models true)\n")
-	if logicHint != "" {
-		out.WriteString("(set-logic " + logicHint + ")\n")
+	if logicHint == "" {
+		logicHint = "ALL"
 	}
+	out.WriteString("(set-logic " + logicHint + ")\n")
 	out.WriteString("(declare-sort Str 0)\n(declare-sort U 0)\n")
 	names := make([]string, 0, len(p.syms))
 	for n := range p.syms {
